@@ -14,7 +14,7 @@ func init() { commands["c09"] = cmdC09 }
 // C09: open subject paths clipped against closed clip (and closed subject) polygons.
 func cmdC09(r *RNG, n int, e *Emitter, args []string) {
 	for i := 0; i < n; i++ {
-		takeDiscards()
+		clearEvents()
 		G := []int64{8, 12, 20, 40, 100}[r.Intn(5)]
 		var info GenInfo
 		info.Grid = G
